@@ -257,6 +257,28 @@ def digest(obj):
     return hashlib.sha1(json.dumps(obj, sort_keys=True, default=str).encode()).hexdigest()[:16]
 
 
+# ---------------------------------------------------------------------------------------------
+# Apalache (inductive invariants over unbounded integers)
+
+def run_apalache(work, module, init, inv, length, cinit=None, timeout=300, tag=None):
+    """apalache-mc check --init=<init> --inv=<inv> --length=<length>; returns 'NoError' / 'Error'."""
+    d = work.sub("apalache_" + (tag or "%s_%s_%d" % (init, inv, length)))
+    shutil.copy(os.path.join(VERIF, "spec", module + ".tla"), d)
+    cmd = ["apalache-mc", "check", "--init=" + init, "--inv=" + inv, "--length=%d" % length,
+           "--out-dir=" + os.path.join(d, "out"), "--run-dir=" + os.path.join(d, "run")]
+    if cinit:
+        cmd.append("--cinit=" + cinit)
+    cmd.append(module + ".tla")
+    try:
+        p = subprocess.run(cmd, cwd=d, stdout=subprocess.PIPE, stderr=subprocess.STDOUT, timeout=timeout, text=True)
+    except subprocess.TimeoutExpired:
+        raise MachineryError("apalache timed out on %s %s/%s" % (module, init, inv))
+    m = re.search(r"The outcome is: (\w+)", p.stdout)
+    if not m:
+        raise MachineryError("apalache gave no outcome for %s %s/%s: %s" % (module, init, inv, p.stdout[-400:]))
+    return m.group(1)
+
+
 class Verdict:
     """Collects violations / known findings for one check run."""
 
